@@ -51,6 +51,9 @@ GRIDS = {
 }
 for _k in list(GRIDS):
     GRIDS[_k + "-dec"] = list(reversed(GRIDS[_k]))
+# long horizons (plane [G], dissipative families only)
+GRIDS["long7"] = [0.5 * i for i in range(7)]
+GRIDS["long26"] = [0.1 * i for i in range(26)]
 ALL_GRIDS = ["inc2", "inc4", "inc7", "rag4", "rag7", "inc2-dec", "inc4-dec", "inc7-dec", "rag4-dec", "rag7-dec"]
 
 RG_ITEMS = ["y0", "p", "w", "ts"]
@@ -64,6 +67,9 @@ DEFAULT_REP = {"lin": "nn", "tdecay": "edit", "logistic": "fn", "osc": "nn"}
 
 FWD_OPTS = {"rk45": {"atol": 1e-10, "rtol": 1e-8}, "rk23": {"atol": 1e-10, "rtol": 1e-7}}
 BCK_ADAPTIVE = {"method": "rk45", "atol": 1e-10, "rtol": 1e-9}
+# plane [G]: tight requests on long horizons of dissipative problems
+TIGHT_OPTS = {"rk45": {"atol": 1e-12, "rtol": 1e-10}, "rk23": {"atol": 1e-11, "rtol": 1e-9}}
+TIGHT_BCK = {"method": "rk45", "atol": 1e-12, "rtol": 1e-10}
 
 
 def bck_method(method, bck):
@@ -153,6 +159,23 @@ def cases(tier, seed):
                             if key not in seen:
                                 seen.add(key)
                                 out.append(cfgF)
+        # [G] dissipative problems on long horizons, adaptive methods, tight requests: the backward integration has
+        # to restart from the stored forward values (re-integrating y backwards is unstable) and has to run with
+        # the accuracy that was requested for the forward integration when no backward options are given
+        if pl == 0:
+            for fam in ("diss", "logistic"):
+                for m in ("rk45", "rk23"):
+                    for b in ("inherit", "adaptive"):
+                        for g in ("long7", "long26"):
+                            for rg in (("y0+p+w+ts", "p") if quick else ("y0+p+w+ts", "p", "w", "y0+ts")):
+                                for cot in ("dense", "last"):
+                                    for od in (("1", "2") if quick else ORDERS):
+                                        if quick and (od == "2" and (g == "long26" or cot != "dense")):
+                                            continue
+                                        cfgG = _case(fam, "fn" if fam == "logistic" else "edit", m, b, g, rg, cot, od,
+                                                     pl, seed)
+                                        cfgG["opts"] = "tight"
+                                        out.append(cfgG)
         # [D] grids
         famD = ["tdecay"] if quick else ["tdecay", "logistic"]
         for fam in famD:
@@ -184,6 +207,8 @@ def core_rhs(fam, t, y, c, s, p, w, k):
         r = s * c[0] * p
         K = k[0] * w + c[1]
         return r * y * (1.0 - y / K)
+    if fam == "diss":
+        return -4.0 * s * (c[0] * p + k[0] * w + c[1]) * y
     if fam == "osc":
         q, v = y
         Om = c[0] * p * p + k[0] * w + c[1]
@@ -209,6 +234,8 @@ def exact(fam, ts, y0, c, s, p, w, k):
         K = k[0] * w + c[1]
         e = torch.exp(r * tau[:, None])
         return K * y0 * e / (K + y0 * (e - 1.0))
+    if fam == "diss":
+        return y0 * torch.exp(-4.0 * s * (c[0] * p + k[0] * w + c[1]) * tau[:, None])
     if fam == "osc":
         q0, v0 = y0
         om = torch.sqrt(c[0] * p * p + k[0] * w + c[1])
@@ -245,6 +272,8 @@ def rate_scale(fam, v, tmax):
     if fam == "logistic":
         r = max(s * c[0] * abs(pi) for pi in p)
         return 2.0 * r + 1.0
+    if fam == "diss":
+        return 4.0 * s * max(c[0] * abs(pi) + k[0] * abs(wi) + c[1] for pi, wi in zip(p, w)) + 1.0
     if fam == "osc":
         om2 = max(c[0] * pi * pi + k[0] * wi + c[1] for pi, wi in zip(p, w))
         return s * max(1.0, om2) + 1.0
@@ -368,12 +397,13 @@ def _experiment(cfg, v, m):
     else:
         w_obj, k_obj, xw_obj = w, k, xw
     fcn, params, mod = build_rhs(fam, rep, c, s, p, xp, w_obj, k_obj, xw_obj)
-    opts = dict(FWD_OPTS.get(method, {}))
+    tight = cfg.get("opts") == "tight"
+    opts = dict((TIGHT_OPTS if tight else FWD_OPTS).get(method, {}))
     kw = {}
     if cfg["bck"] == "fixed":
         kw["bck_options"] = {"method": cfg["bck_method"]}
     elif cfg["bck"] == "adaptive":
-        kw["bck_options"] = dict(BCK_ADAPTIVE)
+        kw["bck_options"] = dict(TIGHT_BCK if tight else BCK_ADAPTIVE)
     n = len(GRIDS[cfg["grid"]])
     cots = _cot(cfg, n, tuple_state, cfg.get("plane", 0), cfg.get("seed", 0))
     grid = _refine(ts, m)
@@ -555,7 +585,13 @@ def run_case(cfg):
                                                           "judged": "euler refinement: error does not shrink like h"},
                                   tensor=x, level=level))
             else:
-                rel = K * F * (_method_error(method, hmax, Lam) + _method_error(cfg["bck_method"], hmax, Lam))
+                if cfg.get("opts") == "tight":
+                    # dissipative problem: local errors are not amplified; every one of the n - 1 segments of the
+                    # forward and of the backward integration contributes at most ~ its requested tolerance
+                    rt = TIGHT_OPTS[method]["rtol"] + TIGHT_OPTS[cfg["bck_method"]]["rtol"]
+                    rel = K * 20.0 * n * rt
+                else:
+                    rel = K * F * (_method_error(method, hmax, Lam) + _method_error(cfg["bck_method"], hmax, Lam))
                 tol = rel * scale
                 e1 = float((got[0] - r).abs().max())
                 ratio = e1 / tol
